@@ -4,3 +4,4 @@
 #include "modules/message/spec.h"
 #include "modules/lmq/spec.h"
 #include "modules/pair1/spec.h"
+size_t g_p1_sched_calls; /* ghost: calls of pair1_send_sched (assumed contract) */
